@@ -100,7 +100,7 @@ func Run(r *simcore.Run) {
 		MaxHtlcs:    []int{6, 10, 14}[t.CfgDraw(3)],
 		ContinueNum: []int{3, 5, 7}[t.CfgDraw(3)],
 	}
-	provoke := t.CfgDraw(8) == 7
+	provoke := t.CfgDraw(16) == 15 && os.Getenv("VERIF_C15_NOPROVOKE") == ""
 	r.Arm = arm
 	s := &Sim{
 		r: r, cfg: cfg, k: k, now: simStart, height: startHeight,
@@ -245,7 +245,13 @@ func (s *Sim) step() {
 		if len(s.invs)+len(s.ksPre) > 0 {
 			base = append(base, "settle", "cancel")
 		}
-		base = append(base, "time")
+		// No injection into "time" events: which background write would be
+		// hit depends on the order in which the expiry watcher walks
+		// invoices that expire at the same instant (a Go map after a
+		// restart), and the tape could not reproduce that.
+		if len(base) == 0 {
+			base = append(base, "htlc")
+		}
 		b := base[r.Draw(len(base))]
 		s.ioEvent = true
 		defer func() { s.ioEvent = false }()
@@ -276,7 +282,7 @@ func (s *Sim) step() {
 	base := strings.SplitN(ev.Kind, "!", 2)[0]
 	switch base {
 	case "time":
-		durs := []time.Duration{time.Second, 3 * time.Second, s.cfg.HoldDuration / 2,
+		durs := []time.Duration{time.Second, 3 * time.Second, (s.cfg.HoldDuration - 500*time.Millisecond) / 2,
 			s.cfg.HoldDuration + time.Second, 41 * time.Second, 95 * time.Second, 301 * time.Second}
 		dur = durs[r.Draw(len(durs))]
 	case "block":
@@ -366,6 +372,8 @@ func describe(c *SubCmd) string {
 		return "SettleHodlInvoice(" + c.Target + ")"
 	case "cancel":
 		return "CancelInvoice(" + c.Target + ")"
+	case "noop":
+		return "nothing to replay"
 	}
 	return c.Kind
 }
@@ -382,6 +390,8 @@ func (s *Sim) exec(w *World, c *SubCmd) SubResult {
 	switch c.Kind {
 	case "htlc", "replay":
 		return SubResult{V: w.Notify(c.H, c.Height, c.CancelSet)}
+	case "noop":
+		return SubResult{}
 	case "addinv":
 		return SubResult{Err: w.AddInvoice(c.Inv)}
 	case "settle":
@@ -613,7 +623,7 @@ func (s *Sim) windDown() {
 	}
 	r.Logf("wind-down: replay every HTLC once")
 	for _, h := range s.htlcs {
-		if !s.provoke && s.staleJIT(h) {
+		if !s.provoke && (s.staleJIT(h) || s.ampReuse(h)) {
 			continue
 		}
 		s.events++
